@@ -374,3 +374,76 @@ theorem disciplined_join {L1 L2 V O E : Type} (o1 : L1 → Option Nat) (o2 : L2 
           exact h u s2' hs2' hy
 
 end Pydap.RowHeap
+
+namespace Pydap.RowHeap
+
+/-! ### the result in terms of the source heap alone (for heaps without dangling references) -/
+
+/-- the value is a number or names an existing object -/
+def Resolves (h : RHeap) : PVal → Prop
+  | .atom _ => True
+  | .ref l => ∃ o, h.get l = some o
+
+/-- no object holds a dangling reference -/
+def Closed (h : RHeap) : Prop := ∀ l o, h.get l = some o → ∀ v ∈ o.items, Resolves h v
+
+theorem get_alloc_of_get {h : RHeap} {l : Loc} {o : PObj} (x : PObj) (hg : h.get l = some o) :
+    (h.alloc x).1.get l = some o := by
+  cases l with
+  | src i => exact hg
+  | own i =>
+    simp only [RHeap.get] at hg
+    exact (alloc_ext h x).own i o hg
+
+theorem items_alloc {h : RHeap} {v : PVal} (x : PObj) (hr : Resolves h v) :
+    (h.alloc x).1.items v = h.items v := by
+  cases v with
+  | atom a => rfl
+  | ref l =>
+    obtain ⟨o, ho⟩ := hr
+    simp only [RHeap.items, ho, get_alloc_of_get x ho]
+
+theorem evalPred_alloc {h : RHeap} {r : PVal} (x : PObj) (p : Pred) (hr : Resolves h r) :
+    evalPred (h.alloc x).1 p r = evalPred h p r := by
+  simp only [evalPred, getItem, items_alloc x hr]
+
+theorem filterRecs_alloc {h : RHeap} (x : PObj) (p : Pred) :
+    ∀ recs : List PVal, (∀ r ∈ recs, Resolves h r) → filterRecs (h.alloc x).1 p recs = filterRecs h p recs := by
+  intro recs
+  induction recs with
+  | nil => intro _; rfl
+  | cons r rs ih =>
+    intro hall
+    simp only [filterRecs, evalPred_alloc x p (hall r (List.mem_cons_self ..)),
+      ih (fun q hq => hall q (List.mem_cons_of_mem _ hq))]
+
+theorem items_resolve {h : RHeap} (hc : Closed h) {v : PVal} {xs : List PVal} (hi : h.items v = .ok xs) :
+    ∀ x ∈ xs, Resolves h x := by
+  cases v with
+  | atom a => simp [RHeap.items] at hi
+  | ref l =>
+    simp only [RHeap.items] at hi
+    split at hi
+    · rename_i o ho
+      cases hi
+      exact hc l o ho
+    · cases hi
+
+/-- on a heap without dangling references the result of `recurse` is described by the SOURCE heap alone: the new
+    list holds exactly the records of the source's cell `col` that pass the test evaluated on the source -/
+theorem recurse_ok_closed (h : RHeap) (hc : Closed h) (col : Nat) (p : Pred) (row out : PVal)
+    (hv : (recurse h col p row).val = .ok out) :
+    ∃ cells cell recs kept,
+      h.items row = .ok cells ∧ cells[col]? = some cell ∧ h.items cell = .ok recs ∧
+      filterRecs h p recs = .ok kept ∧
+      (recurse h col p row).heap.get (.own (h.own.length + 2))
+        = some ⟨.tuple, cells.set col (.ref (.own (h.own.length + 1)))⟩ ∧
+      (recurse h col p row).heap.get (.own (h.own.length + 1)) = some ⟨.list, kept⟩ ∧
+      out = .ref (.own (h.own.length + 2)) := by
+  obtain ⟨cells, cell, recs, kept, h1, h2, h3, h4, h5, h6, h7, _⟩ := recurse_ok h col p row out hv
+  have hcell : Resolves h cell := items_resolve hc h1 cell (List.mem_of_getElem? h2)
+  rw [items_alloc _ hcell] at h3
+  rw [filterRecs_alloc _ p recs (items_resolve hc h3)] at h4
+  exact ⟨cells, cell, recs, kept, h1, h2, h3, h4, h6, h7, h5⟩
+
+end Pydap.RowHeap
